@@ -25,12 +25,12 @@ type Ctx struct {
 	Hung       bool
 	// Abandoned: a *reference* call (not the call under judgement) did not return; the shard stops
 	// gracefully without a verdict on this case (another property owns that defect).
-	Abandoned  bool
-	Tier       string
-	Replaying  bool
-	Shard      int
-	Shards     int
-	Seed       int
+	Abandoned bool
+	Tier      string
+	Replaying bool
+	Shard     int
+	Shards    int
+	Seed      int
 }
 
 func (c *Ctx) Label(l string) {
